@@ -148,7 +148,28 @@ func specPathGlob(pat string) (bool, bool) {
 
 // HarnessC17Glob: impl ⇔ spec, column range, named character, ref ⇒ path.
 func HarnessC17Glob(L int, isRef bool) {
+	verifC17Glob(L, isRef, false)
+}
+
+// HarnessC17GlobSmall: the same obligations for longer patterns over the 15
+// characters that matter to the syntax.
+func HarnessC17GlobSmall(L int, isRef bool) {
+	verifC17Glob(L, isRef, true)
+}
+
+const verifGlobAlphabet = "*?+[]\\-!/. ab\n~"
+
+func verifC17Glob(L int, isRef bool, small bool) {
 	pat := verifSymString("pat", L)
+	if small {
+		for i := 0; i < L; i++ {
+			in := false
+			for k := 0; k < len(verifGlobAlphabet); k++ {
+				in = verifOr(in, pat[i] == verifGlobAlphabet[k])
+			}
+			verifAssumeNote(in, "C17 small alphabet: pattern bytes are among * ? + [ ] \\ - ! / . space a b LF ~")
+		}
+	}
 	var errs []InvalidGlobPattern
 	var valid, specified bool
 	if isRef {
